@@ -83,6 +83,29 @@ std::string Interpreter::extract_array_element_name(const ASTNode *node) {
     return element_name;
 }
 
+void Interpreter::ensure_array_index_in_bounds(const Variable &array_var,
+                                               int64_t index) {
+    if (!array_var.is_array) {
+        return;
+    }
+    int64_t size = array_var.array_size;
+    if (size < 0 && !array_var.array_type_info.dimensions.empty()) {
+        // a member array sized by a constant (P[N] items;) can still carry
+        // the unresolved size: -1 and the name of the constant
+        const ArrayDimension &dim = array_var.array_type_info.dimensions[0];
+        size = dim.size;
+        if (size < 0 && !dim.size_expr.empty()) {
+            Variable *size_var = find_variable(dim.size_expr);
+            if (size_var && size_var->is_assigned) {
+                size = size_var->value;
+            }
+        }
+    }
+    if (index < 0 || (size >= 0 && index >= size)) {
+        throw ArrayIndexOutOfBoundsError();
+    }
+}
+
 int64_t Interpreter::getMultidimensionalArrayElement(
     const Variable &var, const std::vector<int64_t> &indices) {
     return array_manager_->getMultidimensionalArrayElement(var, indices);
